@@ -23,8 +23,8 @@ CLAIMED = {
     "C02": dict(
         text="For all streams within the bound the solver shows the delivered raw bytes concatenate to the input, no message is empty, "
              "the output is closed exactly once (a missing close is a deadlock of the draining harness), and one FetchNextMessageFrame step from "
-             "any reachable push-back state delivers a non-empty prefix and leaves exactly the remainder (inductive step).",
-        note="as C01; channel capacities/timings are not varied here (HandleMessages is one sequential process; see C09 for schedules).",
+             "any reachable push-back state delivers a non-empty prefix and leaves exactly the remainder (inductive step); with a producer goroutine, the handler goroutine and a draining consumer, channel capacities 0/1/2 and the lazy, round-robin and one-preemption schedules the delivered bytes are still exactly the input.",
+        note="as C01; schedules: switches at synchronisation operations only, at most one preemption.",
         ref="DESIGN.md section 6, C02"),
     "C03": dict(
         text="Segment shapes enumerated (<= 3 segments of junk 1..3 B / frames with payload 1,2,3,5 B, truncated tail at every cut; long frames 255/256/1023 B; thorough: payload 1..12, junk 1..8, 257/1022), contents symbolic "
